@@ -222,6 +222,39 @@ fn vk_c01_gen_orthogonal_slider_quiets() {
     assert_pushed(&list, &want[..n]);
 }
 
+// ---- CONTRACT FUNCTION standing in for attackers::generate_attackers_of in the generators that test squares for
+// attack: it records the position / colour / square it was asked about and answers with an ARBITRARY attacker set.
+// What the real function answers is pinned down by C01.attackers.exact (bit a set iff the enemy piece on a attacks the
+// square under the rules); the generator's contract is: it asks about the RIGHT position and square and pushes the move
+// iff the answer is "no attacker".
+pub const ATT_N: usize = 4;
+pub static mut ATT_CALLS: usize = 0;
+pub static mut ATT_BOARD: [Option<crate::chess::board::Board>; ATT_N] = [None, None, None, None];
+pub static mut ATT_PLAYER: [Option<Player>; ATT_N] = [None; ATT_N];
+pub static mut ATT_SQUARE: [u8; ATT_N] = [0; ATT_N];
+pub static mut ATT_ANSWER: [u64; ATT_N] = [0; ATT_N];
+pub fn attackers_contract(board: &crate::chess::board::Board, player: Player, square: Square) -> Bitboard {
+    let ans: u64 = kani::any();
+    unsafe {
+        assert!(ATT_CALLS < ATT_N);
+        ATT_BOARD[ATT_CALLS] = Some(board.clone());
+        ATT_PLAYER[ATT_CALLS] = Some(player);
+        ATT_SQUARE[ATT_CALLS] = square.idx();
+        ATT_ANSWER[ATT_CALLS] = ans;
+        ATT_CALLS += 1;
+    }
+    Bitboard::new(ans)
+}
+/// the k-th attack query was about position `mb`, colour `player`, square `sq`; returns "no attacker"
+fn att_expect(k: usize, mb: &sym::Mailbox, player: Player, sq: u8) -> bool {
+    unsafe {
+        assert!(k < ATT_CALLS, "an attack test is missing");
+        assert!(ATT_PLAYER[k] == Some(player) && ATT_SQUARE[k] == sq, "attack test about the wrong colour / square");
+        assert!(sym::boards_equal(ATT_BOARD[k].as_ref().unwrap(), &sym::board_of(mb)), "attack test on the wrong position");
+        ATT_ANSWER[k] == 0
+    }
+}
+
 // ---------------------------------------------------------------------------------------------------------------
 // pawns, king, castling: these read the position, so the board is the fully symbolic board and the bitboard
 // arguments are the ones the orchestrating functions pass (C01.orchestrate.*); check mask and pin masks stay arbitrary.
@@ -338,6 +371,7 @@ fn pawn_capture_dests(player: Player, a: u8, targets: u64, dp: u64) -> u64 {
 #[kani::proof]
 #[kani::unwind(10)]
 #[kani::stub(<crate::chess::bitboard::SquareIterator as std::iter::Iterator>::next, iter::one_shot_square_next)]
+#[kani::stub(crate::chess::movegen::attackers::generate_attackers_of, attackers_contract)]
 //@@stubs-tables
 fn vk_c01_gen_pawn_captures() {
     let mb = sym::any_mailbox();
@@ -356,10 +390,12 @@ fn vk_c01_gen_pawn_captures() {
     let all = game.board.occupancy().as_u64();
     let (check_mask, op, dp): (u64, u64, u64) = (kani::any(), kani::any(), kani::any());
     iter::rec_reset();
+    unsafe { ATT_CALLS = 0; }
     let mut list = fresh_list();
     generate_pawn_captures(&mut list, &game, bb(pawns), Square::from_index(king), bb(theirs), bb(all), bb(check_mask), bb(op), bb(dp));
     let mut want: [Move; 7] = [SENTINEL; 7];
     let mut n = 0;
+    let mut att_used = 0;
     let targets = theirs & check_mask;
     // (1) capturing promotions
     let s1 = set_of(|s| has(pawns, s) && !has(op, s) && rel_rank(player, s) == 6);
@@ -400,15 +436,18 @@ fn vk_c01_gen_pawn_captures() {
                     after[a.array_idx()] = None;
                     after[victim as usize] = None;
                     after[ep.array_idx()] = Some(Piece::new(player, PieceKind::Pawn));
-                    if !rules::attacked_by(&after, king, them) {
+                    // the attack test must be about the position AFTER the capture, our colour, our king's square
+                    if att_expect(0, &after, player, king) {
                         want[n] = Move::en_passant(a, ep);
                         n += 1;
                     }
+                    att_used = 1;
                 }
             }
         }
     }
     iter::rec_done();
+    assert!(unsafe { ATT_CALLS } == att_used);
     kani::cover!(n >= 6);
     kani::cover!(game.en_passant_target.is_some() && n >= 1 && list.len() >= 2 && list[list.len() - 1].is_en_passant());
     assert_pushed(&list, &want[..n]);
@@ -425,6 +464,7 @@ fn vk_c01_gen_pawn_captures() {
 #[kani::proof]
 #[kani::unwind(10)]
 #[kani::stub(<crate::chess::bitboard::SquareIterator as std::iter::Iterator>::next, iter::one_shot_square_next)]
+#[kani::stub(crate::chess::movegen::attackers::generate_attackers_of, attackers_contract)]
 //@@stubs-tables
 fn vk_c01_gen_king_captures() {
     king_gen(true);
@@ -441,6 +481,7 @@ fn vk_c01_gen_king_captures() {
 #[kani::proof]
 #[kani::unwind(10)]
 #[kani::stub(<crate::chess::bitboard::SquareIterator as std::iter::Iterator>::next, iter::one_shot_square_next)]
+#[kani::stub(crate::chess::movegen::attackers::generate_attackers_of, attackers_contract)]
 //@@stubs-tables
 fn vk_c01_gen_king_quiets() {
     king_gen(false);
@@ -456,6 +497,7 @@ fn king_gen(captures: bool) {
     let theirs = game.board.occupancy_for(them).as_u64();
     let all = game.board.occupancy().as_u64();
     iter::rec_reset();
+    unsafe { ATT_CALLS = 0; }
     let mut list = fresh_list();
     if captures {
         generate_king_captures(&mut list, &game, king, bb(theirs));
@@ -467,12 +509,17 @@ fn king_gen(captures: bool) {
     let ring = geo::king(king.idx());
     let cand = if captures { ring & theirs } else { ring & !all };
     if let Some(t) = iter::rec_expect(cand) {
+        // the attack test is about the position with OUR KING LIFTED off the board (so squares behind the king on a
+        // slider's ray are seen as attacked), our colour, the destination square
         let mut lifted = mb;
         lifted[king.array_idx()] = None;
-        if !rules::attacked_by(&lifted, t.idx(), them) {
+        if att_expect(0, &lifted, player, t.idx()) {
             want[0] = if captures { Move::capture(king, t) } else { Move::quiet(king, t) };
             n = 1;
         }
+        assert!(unsafe { ATT_CALLS } == 1);
+    } else {
+        assert!(unsafe { ATT_CALLS } == 0);
     }
     iter::rec_done();
     kani::cover!(n == 1);
@@ -490,6 +537,7 @@ fn king_gen(captures: bool) {
 //@ assumes: table lookups == geometry (C07); rights imply king and rook on their home squares (legal position)
 #[kani::proof]
 #[kani::unwind(10)]
+#[kani::stub(crate::chess::movegen::attackers::generate_attackers_of, attackers_contract)]
 //@@stubs-tables
 fn vk_c01_gen_castles() {
     let mb = sym::any_mailbox();
@@ -497,22 +545,40 @@ fn vk_c01_gen_castles() {
     let player = game.player;
     let them = player.other();
     let all = game.board.occupancy().as_u64();
+    unsafe { ATT_CALLS = 0; }
     let mut list = fresh_list();
     generate_castles(&mut list, &game, bb(all));
     let h: u8 = if player == Player::White { 0 } else { 56 };
     let r = game.castle_rights.for_player(player);
     let empty = |s: u8| mb[s as usize].is_none();
-    let safe = |s: u8| !rules::attacked_by(&mb, s, them);
     let mut want: [Move; 2] = [SENTINEL; 2];
     let mut n = 0;
-    if r.king_side && empty(h + 5) && empty(h + 6) && safe(h + 5) && safe(h + 6) {
-        want[n] = Move::castles(Square::from_index(h + 4), Square::from_index(h + 6));
-        n += 1;
+    let mut q = 0; // attack queries consumed, in order: transit square first, then the king's destination
+    if r.king_side && empty(h + 5) && empty(h + 6) {
+        let transit_safe = att_expect(q, &mb, player, h + 5);
+        q += 1;
+        if transit_safe {
+            let dest_safe = att_expect(q, &mb, player, h + 6);
+            q += 1;
+            if dest_safe {
+                want[n] = Move::castles(Square::from_index(h + 4), Square::from_index(h + 6));
+                n += 1;
+            }
+        }
     }
-    if r.queen_side && empty(h + 1) && empty(h + 2) && empty(h + 3) && safe(h + 3) && safe(h + 2) {
-        want[n] = Move::castles(Square::from_index(h + 4), Square::from_index(h + 2));
-        n += 1;
+    if r.queen_side && empty(h + 1) && empty(h + 2) && empty(h + 3) {
+        let transit_safe = att_expect(q, &mb, player, h + 3);
+        q += 1;
+        if transit_safe {
+            let dest_safe = att_expect(q, &mb, player, h + 2);
+            q += 1;
+            if dest_safe {
+                want[n] = Move::castles(Square::from_index(h + 4), Square::from_index(h + 2));
+                n += 1;
+            }
+        }
     }
+    assert!(unsafe { ATT_CALLS } == q);
     kani::cover!(n == 2);
     assert_pushed(&list, &want[..n]);
 }
